@@ -29,6 +29,16 @@ def label(mask, structure=None, output=None):
 
 
 find_objects = _ndi.find_objects
+generate_binary_structure = _ndi.generate_binary_structure
+iterate_structure = _ndi.iterate_structure
+
+
+def binary_erosion(mask, structure=None, iterations=1, **k):
+    return _ndi.binary_erosion(_concrete_mask(mask), structure=structure, iterations=int(iterations), **k)
+
+
+def binary_fill_holes(mask, structure=None, **k):
+    return _ndi.binary_fill_holes(_concrete_mask(mask), structure=structure, **k)
 
 
 def binary_dilation(mask, structure=None, iterations=1, **k):
